@@ -57,3 +57,129 @@ def ueb_end(c: "array", p, L):
     return imin(p + 1, L) if vbit(c, p, L) == 1 else ueb_end(c, imin(p + 2, L), L)
 
 
+
+
+@specfun
+def bitsvalb(c: "array", p, L, n):
+    """Value of n bits read from p inside a bounded block ending at L (1s at and past L)."""
+    return 0 if n <= 0 else 2 * bitsvalb(c, p, L, n - 1) + vbit(c, p + n - 1, L)
+
+
+@inline
+def imax0(a):
+    return a if a > 0 else 0
+
+
+# ---- the spec functions depend only on the tape bits they cover (extensionality lemmas) ----------
+
+
+@lemma
+def bitsval_ext(c1: "array", c2: "array", p: int, n: int):
+    requires(forall(p, p + n, lambda q: tbit(c1, q) == tbit(c2, q), trigger=lambda q: tbit(c1, q)))
+    ensures(bitsval(c1, p, n) == bitsval(c2, p, n))
+    decreases(imax0(n))
+    unfold(bitsval, c1, p, n)
+    unfold(bitsval, c2, p, n)
+    if n > 0:
+        bitsval_ext(c1, c2, p, n - 1)
+
+
+# ---- the bit pattern write_uint produces, as a predicate on the tape, and what it decodes to ------
+
+
+@specfun
+def pairs_ok(c: "array", p, V, n, k):
+    """1 iff the first k (0, x) pairs at p spell the bits of V (which has n bits) below its leading 1."""
+    return 1 if k <= 0 else (1 if (pairs_ok(c, p, V, n, k - 1) == 1 and tbit(c, p + 2 * (k - 1)) == 0
+                                   and tbit(c, p + 2 * (k - 1) + 1) == bitof(V, n - 1 - k)) else 0)
+
+
+@lemma
+def pairs_ok_ext(c1: "array", c2: "array", p: int, V: int, n: int, k: int):
+    requires(forall(p, p + 2 * k, lambda q: tbit(c1, q) == tbit(c2, q), trigger=lambda q: tbit(c1, q)))
+    ensures(pairs_ok(c1, p, V, n, k) == pairs_ok(c2, p, V, n, k))
+    decreases(imax0(k))
+    unfold(pairs_ok, c1, p, V, n, k)
+    unfold(pairs_ok, c2, p, V, n, k)
+    if k > 0:
+        pairs_ok_ext(c1, c2, p, V, n, k - 1)
+
+
+@lemma
+def pairs_decode(c: "array", p: int, V: int, n: int, k: int):
+    """Decoding the first k pairs leaves the accumulator at the top k+1 bits of V."""
+    requires(V >= 1 and n == blen(V) and 0 <= k and k <= n - 1 and pairs_ok(c, p, V, n, k) == 1)
+    ensures(ue_val(c, p, 1) == ue_val(c, p + 2 * k, V // pow2(n - 1 - k)))
+    ensures(ue_end(c, p) == ue_end(c, p + 2 * k))
+    decreases(k)
+    use("blen_def", V)
+    unfold(pairs_ok, c, p, V, n, k)
+    if k == 0:
+        use("div_def", V, pow2(n - 1))
+        use("pow2_step", n - 1)
+    else:
+        pairs_decode(c, p, V, n, k - 1)
+        unfold(ue_val, c, p + 2 * (k - 1), V // pow2(n - k))
+        unfold(ue_end, c, p + 2 * (k - 1))
+        use("bitof_def", V, n - 1 - k)
+        use("pow2_small", n - 1 - k)
+
+
+@inline
+def ue_pattern(c, p, v):
+    """The tape holds, at p, exactly the bits write_uint(v) produces."""
+    return pairs_ok(c, p, v + 1, blen(v + 1), blen(v + 1) - 1) == 1 and tbit(c, p + 2 * (blen(v + 1) - 1)) == 1
+
+
+@lemma
+def ue_pattern_decodes(c: "array", p: int, v: int):
+    """Both readers' spec function decodes the written pattern back to v and stops right after it."""
+    requires(v >= 0 and ue_pattern(c, p, v))
+    ensures(ue_val(c, p, 1) == v)
+    ensures(ue_end(c, p) == p + (blen(v + 1) - 1) * 2 + 1)
+    use("blen_def", v + 1)
+    pairs_decode(c, p, v + 1, blen(v + 1), blen(v + 1) - 1)
+    unfold(ue_val, c, p + 2 * (blen(v + 1) - 1), v + 1)
+    unfold(ue_end, c, p + 2 * (blen(v + 1) - 1))
+    use("pow2_small", 0)
+
+
+@lemma
+def ue_pattern_ext(c1: "array", c2: "array", p: int, v: int):
+    requires(v >= 0 and ue_pattern(c2, p, v))
+    requires(forall(p, p + (blen(v + 1) - 1) * 2 + 1, lambda q: tbit(c1, q) == tbit(c2, q), trigger=lambda q: tbit(c1, q)))
+    ensures(ue_pattern(c1, p, v))
+    use("blen_def", v + 1)
+    pairs_ok_ext(c1, c2, p, v + 1, blen(v + 1), blen(v + 1) - 1)
+
+
+@lemma
+def pairs_decode_b(c: "array", p: int, L: int, V: int, n: int, k: int):
+    """Bounded-block twin of pairs_decode, for codes that lie wholly inside the block."""
+    requires(V >= 1 and n == blen(V) and 0 <= k and k <= n - 1 and pairs_ok(c, p, V, n, k) == 1 and p + 2 * k < L)
+    ensures(ueb_val(c, p, L, 1) == ueb_val(c, p + 2 * k, L, V // pow2(n - 1 - k)))
+    ensures(ueb_end(c, p, L) == ueb_end(c, p + 2 * k, L))
+    decreases(k)
+    use("blen_def", V)
+    unfold(pairs_ok, c, p, V, n, k)
+    if k == 0:
+        use("div_def", V, pow2(n - 1))
+        use("pow2_step", n - 1)
+    else:
+        pairs_decode_b(c, p, L, V, n, k - 1)
+        unfold(ueb_val, c, p + 2 * (k - 1), L, V // pow2(n - k))
+        unfold(ueb_end, c, p + 2 * (k - 1), L)
+        use("bitof_def", V, n - 1 - k)
+        use("pow2_small", n - 1 - k)
+
+
+@lemma
+def ueb_pattern_decodes(c: "array", p: int, L: int, v: int):
+    requires(v >= 0 and ue_pattern(c, p, v) and p + (blen(v + 1) - 1) * 2 + 1 <= L)
+    ensures(ueb_val(c, p, L, 1) == v)
+    ensures(ueb_end(c, p, L) == p + (blen(v + 1) - 1) * 2 + 1)
+    use("blen_def", v + 1)
+    pairs_decode_b(c, p, L, v + 1, blen(v + 1), blen(v + 1) - 1)
+    unfold(ueb_val, c, p + 2 * (blen(v + 1) - 1), L, v + 1)
+    unfold(ueb_end, c, p + 2 * (blen(v + 1) - 1), L)
+    use("pow2_small", 0)
